@@ -12,6 +12,16 @@ sides), any number of embedded halves, serializer failures at any byte offset, d
 `send` futures dropped during the data or before the port batch, `recv` futures dropped anywhere —
 interleaved arbitrarily with the receiver, with close, sender drop and loss of the connection.
 
+*Variant (finding FB1).*  At one step the pinned tree diverges from the property: in streamed mode
+`Receiver::recv` returns the item as soon as the deserializer thread has it, without looking at how the
+chunk stream ends.  A send that fails or is cancelled (or is cut by a close) after the complete encoding
+has been handed to the port — only `finish` is missing — is therefore *delivered although it is reported
+as failed to its sender*.  `Cfg.strictEnd = false` is the code as it is (kernel-checked witnesses
+`fb1_*` below), `strictEnd = true` the repaired receiver; the theorems that need the repair carry the
+hypothesis `c.strictEnd = true`, the others (`base_prefix`, `base_complete`, `eos_after_all_data`) hold
+for both variants.  The driver replays every real trace against both variants and reports which one the
+tree matches.
+
 *Abstraction (partial w.r.t. the property text):* serde and the codec are abstracted to
 (size, halves, failure position); that the bytes of a delivered value equal the original is checked
 by the correspondence harness (byte-for-byte), not proved.  The abstract port is what C01/C11 prove
@@ -44,29 +54,29 @@ theorem base_prefix (c : Cfg) (st : State) (h : Reachable c st) : st.got <+: ide
 returns `Ok` the receiver's output for this entry is exactly the item (or exactly one non-final error
 when the receiver's own size limit / deserializer rejects it); otherwise it contains no value; in
 every case it has at most one element.  Buffered and streamed transmission give the same result. -/
-theorem send_outcome (c : Cfg) (big : Int) (it : Item) (ab : Abort) (derr : Bool) (n0 : Nat) :
+theorem send_outcome (c : Cfg) (hs : c.strictEnd = true) (big : Int) (it : Item) (ab : Abort) (derr : Bool) (n0 : Nat) :
     let x := sendItem c big it ab derr n0
     (x.2.2 = .ok → outcome c x.2.1 = delivered c it) ∧
     (x.2.2 ≠ .ok → values (outcome c x.2.1) = []) ∧
     (outcome c x.2.1).length ≤ 1 :=
-  ⟨(sendItem_spec c big it ab derr n0).1, (sendItem_spec c big it ab derr n0).2,
+  ⟨(sendItem_spec c hs big it ab derr n0).1, (sendItem_spec c hs big it ab derr n0).2,
    outcome_length c _ (sendItem_shape c big it ab derr n0)⟩
 
 /-- **Values.**  The values returned by `recv` are, in order and each exactly once, the successfully
 sent items the receiver can take, minus a suffix. -/
-theorem base_values_prefix (c : Cfg) (st : State) (h : Reachable c st) :
+theorem base_values_prefix (c : Cfg) (hs : c.strictEnd = true) (st : State) (h : Reachable c st) :
     values st.got <+: (sentOk st.log).filter (receivable c) := by
-  rw [← ideal_values c st.log (log_spec c st h)]
+  rw [← ideal_values c st.log (log_spec c hs st h)]
   exact values_prefix (base_prefix c st h)
 
 /-- **Errors.**  Every error returned for an item is non-final (`RecvOut.itemErr` — the final error is
 `End.failed`, reported only when the connection is lost), and there are at most as many of them as
 there are failing entries (failed / cancelled sends and items the receiver rejects): each failing item
 produces at most one. -/
-theorem base_errors_bounded (c : Cfg) (st : State) (h : Reachable c st) :
+theorem base_errors_bounded (c : Cfg) (hs : c.strictEnd = true) (st : State) (h : Reachable c st) :
     (errors st.got).length ≤ (st.log.filter (failing c)).length :=
   Nat.le_trans (errors_length_prefix (base_prefix c st h))
-    (ideal_errors_le c st.log (inv_reachable c st h).shapes (log_spec c st h))
+    (ideal_errors_le c st.log (inv_reachable c st h).shapes (log_spec c hs st h))
 
 /-- the final error is only ever reported after the connection was lost -/
 theorem final_error_only_when_lost (c : Cfg) (st : State) (h : Reachable c st) :
@@ -87,7 +97,11 @@ theorem final_error_only_when_lost (c : Cfg) (st : State) (h : Reachable c st) :
         simp only [step] at hstep
         split at hstep
         · simp at hstep
-        · split at hstep <;> (obtain rfl := Option.some.inj hstep; exact hs)
+        · split at hstep
+          · obtain rfl := Option.some.inj hstep; exact hs
+          · split at hstep
+            · simp at hstep
+            · obtain rfl := Option.some.inj hstep; exact hs
       | deliver =>
         simp only [step] at hstep
         split at hstep
@@ -215,9 +229,35 @@ theorem closed_sender_sends_nothing (c : Cfg) (st st' : State) (it : Item) (ab :
   · obtain rfl := Option.some.inj hs
     exact ⟨rfl, _, rfl, rfl, sendClosed_not_ok c st.big it, rfl⟩
 
+/-! ### finding FB1: witnesses on the pinned variant (tests by `decide`, not theorems about all inputs) -/
+
+def cPinned : Cfg := { sMaxData := 16, rMaxData := 16, sMaxItem := 64, rMaxItem := 64, strictEnd := false }
+
+/-- a streamed item whose serializer fails after the last byte: `send` returns `Serialize`, the receiver
+nevertheless returns the value -/
+example : (sendItem cPinned 1 { id := 7, size := 40, serFail := some 40 } .none true 0).2.2 = .serErr ∧
+    outcome cPinned (sendItem cPinned 1 { id := 7, size := 40, serFail := some 40 } .none true 0).2.1 =
+      [.value { id := 7, size := 40, serFail := some 40 }] := by decide
+
+/-- a streamed send dropped by the caller while `finish` is pending: cancelled, yet delivered -/
+example : (sendItem cPinned 1 { id := 7, size := 40 } (.inData 40) true 0).2.2 = .cancelled ∧
+    outcome cPinned (sendItem cPinned 1 { id := 7, size := 40 } (.inData 40) true 0).2.1 = [.value { id := 7, size := 40 }] := by
+  decide
+
+/-- the receiver closes after it has taken the item: the sender's `finish` fails with `Closed` -/
+example : (sendItem cPinned 1 { id := 7, size := 40 } (.closedAt 40) true 0).2.2 = .closed ∧
+    outcome cPinned (sendItem cPinned 1 { id := 7, size := 40 } (.closedAt 40) true 0).2.1 = [.value { id := 7, size := 40 }] := by
+  decide
+
+/-- the same three on the repaired variant: nothing is delivered -/
+example : outcome { cPinned with strictEnd := true } (sendItem cPinned 1 { id := 7, size := 40, serFail := some 40 } .none true 0).2.1 = [] ∧
+    outcome { cPinned with strictEnd := true } (sendItem cPinned 1 { id := 7, size := 40 } (.inData 40) true 0).2.1 = [] ∧
+    outcome { cPinned with strictEnd := true } (sendItem cPinned 1 { id := 7, size := 40 } (.closedAt 40) true 0).2.1 = [] := by
+  decide
+
 /-! ### non-vacuity -/
 
-def c1 : Cfg := { sMaxData := 16, rMaxData := 16, sMaxItem := 64, rMaxItem := 48 }
+def c1 : Cfg := { sMaxData := 16, rMaxData := 16, sMaxItem := 64, rMaxItem := 48, strictEnd := true }
 
 def small (id : Nat) : Item := { id := id, size := 8 }
 def big (id : Nat) : Item := { id := id, size := 40 }
@@ -260,7 +300,7 @@ senders are the arbitrary environment), in every reachable state:
   ones in order — what was accepted locally but not transmitted is a suffix (`droppedQ ++ q`, C11
   `queued_suffix_dropped`).
 * local sender: the receiver obtained a prefix of the accepted values themselves. -/
-theorem mpsc_per_sender_prefix (c : Cfg) (ro os : Bool) (st : State) (h : Reachable c ro os st) :
+theorem mpsc_per_sender_prefix (c : Cfg) (hs : c.strictEnd = true) (ro os : Bool) (st : State) (h : Reachable c ro os st) :
     (st.remote = true →
       values (mineOuts st.got) <+: (sentOk st.base.log).filter (receivable c) ∧
       (errors (mineOuts st.got)).length ≤ (st.base.log.filter (failing c)).length ∧
@@ -274,11 +314,11 @@ theorem mpsc_per_sender_prefix (c : Cfg) (ro os : Bool) (st : State) (h : Reacha
         rw [← List.append_assoc, hi.pushed hr, List.take_append_drop]⟩
     have h2 := h1.trans (base_prefix c st.base hi.baseReach)
     refine ⟨?_, ?_, ?_⟩
-    · rw [← ideal_values c st.base.log (log_spec c st.base hi.baseReach)]
+    · rw [← ideal_values c st.base.log (log_spec c hs st.base hi.baseReach)]
       exact values_prefix h2
     · exact Nat.le_trans (errors_length_prefix h2)
         (ideal_errors_le c st.base.log (Base.inv_reachable c st.base hi.baseReach).shapes
-          (log_spec c st.base hi.baseReach))
+          (log_spec c hs st.base hi.baseReach))
     · rw [hi.acc hr, List.append_assoc]
   · intro hr
     exact ⟨mineOuts st.rq, hi.localQ hr⟩
@@ -314,13 +354,13 @@ theorem values_map_value (l : List Item) : values (l.map .value) = l := by
 
 /-- **`oneshot_at_most_one`.**  A oneshot sender is consumed by its first `send`: at most one value is
 ever accepted, the receiver obtains at most one value, and only the one that was sent. -/
-theorem oneshot_at_most_one (c : Cfg) (ro : Bool) (st : State) (h : Reachable c ro true st)
+theorem oneshot_at_most_one (c : Cfg) (hs : c.strictEnd = true) (ro : Bool) (st : State) (h : Reachable c ro true st)
     (ho : st.oneshot = true) :
     st.accepted.length ≤ 1 ∧ (values (mineOuts st.got)).length ≤ 1 ∧
     ∀ v ∈ values (mineOuts st.got), v ∈ st.accepted := by
   have hi := inv_reachable c ro true st h
   have h1 := hi.one ho
-  have hp := mpsc_per_sender_prefix c ro true st h
+  have hp := mpsc_per_sender_prefix c hs ro true st h
   refine ⟨by omega, ?_, ?_⟩
   · cases hr : st.remote with
     | true =>
@@ -372,7 +412,7 @@ theorem oneshot_flag (c : Cfg) (ro os : Bool) (st : State) (h : Reachable c ro o
 
 /-! ### non-vacuity -/
 
-def m1 : Cfg := { sMaxData := 16, rMaxData := 16, sMaxItem := 64, rMaxItem := 64 }
+def m1 : Cfg := { sMaxData := 16, rMaxData := 16, sMaxItem := 64, rMaxItem := 64, strictEnd := true }
 
 /-- a remote sender queues three items of which the second is over-size: the error becomes sticky,
 the third (already queued) item is still transmitted and delivered, a fourth send is refused;
